@@ -19,7 +19,10 @@ unshare -m bash -c "
   done < $LIST
 " > $S/log.txt 2>&1
 mkdir -p /verif/seeded
-rsync -a $S/verif/seeded/ /verif/seeded/
+# copy back only what this batch produced
+while IFS='|' read wt letter id rest; do
+  [ -d "$S/verif/seeded/$id" ] && rsync -a "$S/verif/seeded/$id/" "/verif/seeded/$id/"
+done < $LIST
 cp $S/log.txt /verif/seeded/.last-batch-$NAME.log
 rm -rf $S
 echo "batch $NAME done"
